@@ -98,6 +98,11 @@ func (s *Session) Exec(sql string, args []interface{}, prepared bool) (rs []resu
 		je.Err = act.Err
 		je.Injected = "error"
 		je.Kind = classify(sql)
+		if je.Kind == "COMMIT" && s.inTx() && s.xaID == "" {
+			// a COMMIT that fails (deadlock, I/O error) leaves nothing committed and the transaction ended, as InnoDB does
+			s.releaseLocks(s.tx)
+			s.tx = nil
+		}
 		je.SeqOut = e.nextSeq()
 		je.InTxAfter = s.inTx()
 		return []result{{err: &myErr{act.Err.Code, act.Err.State, act.Err.Msg}}}, false
